@@ -34,8 +34,9 @@ RECURSIVE UnparseCond(_, _), UnparseArgD(_, _, _), UnparsePart(_, _)
 \* literal mapping arguments: keys starting with "path" are escaped.  from_spec inspects the items /
 \* values of a list / mapping argument one level down only, and not at all in a mapping that has an
 \* escaped key: the serialiser converts / escapes exactly there (depth 0 = the argument itself).
-EscKey(cs, esc) == IF esc /\ StartsWith(cs, PathCode) THEN <<92>> \o cs ELSE cs
-PathLikeKey(kv) == kv.k = "str" /\ StartsWith(kv.xs, PathCode)
+\* (keys are read in any letter case, so "Path..." needs the escape as much as "path...")
+EscKey(cs, esc) == IF esc /\ StartsWith(Lower(cs), PathCode) THEN <<92>> \o cs ELSE cs
+PathLikeKey(kv) == kv.k = "str" /\ StartsWith(Lower(kv.xs), PathCode)
 UnparseArgD(v, esc, depth) ==
   CASE v.k = "dpath" -> MapV(<< <<StrV(PathCode \o ModSuffix(v.xs[1])),
                                   ListV([j \in 1..Len(v.xs[1].parts) |-> UnparsePart(v.xs[1].parts[j], esc)])>> >>)
